@@ -83,3 +83,91 @@ def judge_lines(case, mode, events, points, results, kind="crash", refs=None):
     for n in sorted(k for k in by_n if k >= len(events)):
         cps(n)
     return lines
+
+
+# ---------------------------------------------------------------------------------------------------------------------------------
+# protocol conformance of the syscall sequence (DiskProtoTrace.tla)
+# ---------------------------------------------------------------------------------------------------------------------------------
+import re as _re
+
+_tab_re = _re.compile(r"^sstable_(\d{15})(?:/(.*))?$")
+_comp_re = _re.compile(r"^(sstable_compaction\d+)(?:/(.*))?$")
+_wal_re = _re.compile(r"^wal/(\d{6})\.wal$")
+
+
+def _classify(path):
+    m = _tab_re.match(path)
+    if m:
+        return "table", int(m.group(1)), m.group(2) or ""
+    m = _comp_re.match(path)
+    if m:
+        return "comp", m.group(1), m.group(2) or ""
+    m = _wal_re.match(path)
+    if m:
+        return "wal", int(m.group(1)), ""
+    return "other", 0, ""
+
+
+def proto_lines(case, points, events, start_phase="recovery"):
+    """one line per mutating syscall (from the crash points) interleaved with phase changes derived from the open / close.done events"""
+    lines = [{"t": "reset", "case": case}]
+    if start_phase != "recovery":
+        lines.append({"t": "phase", "phase": start_phase})
+    phase_at = {}
+    for i, e in enumerate(events):
+        if e.get("t") == "open":
+            phase_at[i + 1] = "run"
+        elif e.get("t") == "close.done":
+            phase_at[i + 1] = "recovery"
+    last = 0
+    for p in points:
+        if p.perm or p.desc in ("initial", "after-return"):
+            continue
+        for n in range(last + 1, p.ntrace + 1):
+            if n in phase_at:
+                lines.append({"t": "phase", "phase": phase_at[n]})
+        last = max(last, p.ntrace)
+        d = p.desc.replace(" [listing-order]", "")
+        op, _, rest = d.partition(" ")
+        ev = {"t": "sys", "op": op, "kind": "other", "id": 0, "file": "", "target": 0, "metaDone": True, "afterRename": False, "desc": d}
+        if op == "rename":
+            a, _, b = rest.partition(" -> ")
+            k, ident, f = _classify(a)
+            kb, idb, _ = _classify(b)
+            ev.update(kind=k, id=ident, target=idb if kb == "table" else -1)
+        else:
+            path = rest.split(" ")[0]
+            k, ident, f = _classify(path)
+            ev.update(kind=k, id=ident, file=f)
+            if op == "truncate-open" or op == "ftruncate":
+                ev["op"] = "truncate"
+            if k == "comp" and f == "compaction_successful" and op == "write":
+                m = _re.search(r"\+(\d+)@(\d+)", rest)
+                if m and int(m.group(2)) >= 8:
+                    ev["op"] = "flagrecord"
+            if op == "rmdir" and k in ("table", "comp"):
+                ev["file"] = ""
+        lines.append(ev)
+    return lines
+
+
+def proto_init_line(snap, root):
+    """abstract stages of a directory image (for recordings that start from a crash image): table complete iff its metadata is non-empty,
+    compaction flagged iff the success file holds a record"""
+    files, dirs = snap
+    tables, comps, wals = [], [], []
+    for d in sorted(dirs):
+        if os.path.dirname(d) != root:
+            continue
+        k, ident, _ = _classify(os.path.basename(d))
+        if k == "table":
+            tables.append([ident, "complete" if files.get(d + "/meta.pb.bin") else "dir"])
+        elif k == "comp":
+            fl = files.get(d + "/compaction_successful")
+            st = "flagged" if fl is not None and len(fl) > 8 else ("complete" if files.get(d + "/meta.pb.bin") else "dir")
+            comps.append([ident, st])
+    for p in sorted(files):
+        k, ident, _ = _classify(p[len(root) + 1:])
+        if k == "wal":
+            wals.append(ident)
+    return {"t": "init", "tables": tables, "comps": comps, "wals": wals}
